@@ -53,6 +53,9 @@ CHECKS = {
  'C17': dict(technique='allocation-table bounds checking inside the symbolic executor on symbolic runs of the kick kernels, Impedance::operator+=, appendTracks, plus under-constrained symbolic runs of the real file loaders (makePSFromTXT, Impedance::readData, HDF5File::readPhaseSpace) with iostream/HDF5 calls as nondeterministic stubs and uninitialised-stack tracking; under-constrained symbolic execution of the slice of main() from the filling pattern to the ElectricField constructions with rounding as integer-theory constraints; z3 decides index ranges and the length inequalities',
              text='bounded symbolic verification for the listed units (not the whole program): displacements anywhere in [-2n,2n] and particles anywhere on the grid never index outside tables/grids; impedance tables shorter or longer than the grid are added in bounds; text loaders index the grid only inside [0,n) for arbitrary file contents and never read an unwritten local on any extraction-failure pattern; the HDF5 start file reader never divides by an empty extent; track output indexes inside the axes; for every bunch spacing >= grid width, padding, rounding option and filling pattern (grids 4-8, up to 5 bucket slots; thorough to 33 / 7) the padded lengths main computes cover bucket*spacing+grid; on every start-distribution route the grid width equals GridSize when fields and maps are built; tracking-file coordinates of any float value are mapped into the grid (IEEE theory)',
              ref='4/C17'),
+ 'C20': dict(technique='symbolic execution of ProgramOptions::parse from LLVM IR (compiled -fno-inline) with boost::program_options store/notify/lookups replaced by a model of their documented contract over a symbolic world (every scalar option given or not on the command line and in the config file, values arbitrary); the option registry is read from the object the real constructor builds; the model is compared with the native library on concrete scenarios in every run; z3 decides the precedence identity per option and path',
+             text='bounded symbolic verification: on every path of parse() on which the run goes ahead, for every scalar option at once and arbitrary values, the bound variable equals the command-line value if given, else the config-file value under its current or legacy name, else the default shown by --help; string and vector options for the four placements with fixed values; compatibility options bind variables nothing else uses; a missing or unreadable config file and the information flags stop with a message; the parsers are given the right option groups with unknown names refused; tokenising and value conversion are boost\'s and not decided',
+             ref='4/C20 (9.8)'),
  'C18': dict(technique='symbolic execution of every call history (wakePotential, padBunchProfiles, updateCSR; length <= 2/3, independent symbolic profiles) from LLVM IR with the FFT as an uninterpreted function of its entire input buffer; term identity with a fresh object decided by z3',
              text='bounded symbolic verification: after every history of up to 2 (quick) / 3 (thorough) calls with arbitrary earlier profiles, each of the three queries returns terms identical to those of the untouched snapshot object, for power-of-two, composite and prime transform lengths and bunch patterns with empty buckets; FFT stub assumptions calibrated natively per configuration',
              ref='4/C18'),
@@ -60,7 +63,6 @@ CHECKS = {
 NA = {
  'C05': 'Haissinski equilibrium is the stationary state of thousands of composed nonlinear float steps with ln(rho) in the oracle: neither the fixed point nor its distance to the continuous solution is a bounded symbolic-execution question; its decidable ingredients (wake scale/placement C06, wake copied into the kick of the same bunch C06/C08, RF/drift fields and rotation C03, energy relaxation C04, step order C12/C14 grammar) are claimed there (DESIGN.md 5)',
  'C11': 'needs two complete program executions joined through a real HDF5 file (libhdf5 on both sides) and an equivalence over many float steps; only the record-index arithmetic and size guard of readPhaseSpace are encodable and are decided under C17 (DESIGN.md 5)',
- 'C20': 'option precedence, alias binding, defaults and error handling are decided inside compiled boost::program_options (store/notify/parse_*, validators, lexical_cast) reached through virtual calls and exceptions: no IR to execute; a stub precise enough would restate the property. The writer half that is Inovesa code is claimed under C13 (DESIGN.md 5)',
 }
 PENDING = 'check not built yet in this round (breadth-first build in progress); no claim is made'
 def main():
